@@ -170,3 +170,69 @@ func ConformsModel(img []byte, cmpOf map[string]int) string {
 	}
 	return r
 }
+
+var dmodelKinds = map[string]bool{"coll": true, "rmcoll": true, "names": true, "set": true, "del": true, "get": true, "geti": true,
+	"exist": true, "min": true, "max": true, "tot": true, "flush": true, "evict": true, "reopen": true, "revert": true,
+	"asc": true, "ascx": true, "itasc": true, "desc": true, "descx": true, "itdesc": true, "len": true, "nasc": true, "ndesc": true, "nit": true}
+
+// DModelMismatch runs the byte-level store model DStore.drun on the history and compares, step by step, the
+// observations and (after Flush / FlushRevert / re-open) length and MD5 of the predicted file with the implementation's.
+func DModelMismatch(ops []Op, obs []string, digests []string) *Mismatch {
+	for _, o := range ops {
+		if o.H != 0 || !dmodelKinds[o.K] {
+			return nil
+		}
+	}
+	if len(obs) < len(ops) || len(digests) < len(ops) {
+		return nil
+	}
+	m := getModel()
+	var sb strings.Builder
+	fmt.Fprintf(&sb, "drun %d\n", len(ops))
+	for _, o := range ops {
+		sb.WriteString(o.String())
+		sb.WriteByte('\n')
+	}
+	if _, err := io.WriteString(m.in, sb.String()); err != nil {
+		return &Mismatch{Kind: "model-runner", Observed: err.Error()}
+	}
+	var lines []string
+	for {
+		line, err := m.out.ReadString('\n')
+		if err != nil {
+			return &Mismatch{Kind: "model-runner", Observed: "model runner died: " + err.Error()}
+		}
+		line = strings.TrimRight(line, "\n")
+		if line == "END" {
+			break
+		}
+		lines = append(lines, line)
+	}
+	canon := canonicalShape(ops)
+	for i := range ops {
+		if i >= len(lines) {
+			break
+		}
+		parts := strings.SplitN(lines[i], " | ", 2)
+		exp, got := parts[0], obs[i]
+		switch ops[i].K {
+		case "asc", "desc", "itasc", "itdesc", "nasc", "ndesc", "nit":
+			exp = stripDepth(exp)
+		case "ascx", "descx":
+			if !canon {
+				exp, got = stripDepth(exp), stripDepth(got)
+			}
+		}
+		if exp != got {
+			return &Mismatch{Step: i, Op: ops[i].String(), Kind: "dmodel-obs", Expected: exp, Observed: got, Note: "implementation vs DStore.drun"}
+		}
+		switch ops[i].K {
+		case "flush", "revert", "reopen":
+			if len(parts) == 2 && parts[1] != digests[i] {
+				return &Mismatch{Step: i, Op: ops[i].String(), Kind: "dmodel-file", Expected: "file (length md5) " + parts[1], Observed: digests[i],
+					Note: "the bytes of the implementation's file after this step differ from the file predicted by DStore (flush_bytes / revert_bytes)"}
+			}
+		}
+	}
+	return nil
+}
